@@ -84,6 +84,13 @@ def correspond(ctx, proof_ok=True):
                 base.append({'init': st, 'fault': None, 'args': va})
         # phase 1: fault-free runs (also creates the input files once)
         first = C.run_impl('c20_impl.py', {'target': target, 'workdir': workdir, 'vars': names, 'runs': base[:1]})
+        optkeys = (first.get('paths') or {}).get('optional_keywords') or []
+        if target == 'template_input' and optkeys:
+            # the source reads parameter-file keywords the standard file does not define: run every initial state
+            # once more with a file that sets them, so that code guarded by `'key' in par` is exercised as well
+            for st in states:
+                base.append({'init': st, 'fault': None, 'args': {'flux': False, 'optional_keywords': True}})
+        ctx.coverage.setdefault('optional_keywords', {})[target] = optkeys
         nb = min(C.NPROC, max(1, len(base) - 1))
         rest = base[1:]
         outs = C.run_impl_parallel('c20_impl.py', [{'target': target, 'workdir': workdir, 'vars': names, 'runs': rest[i::nb]}
